@@ -113,6 +113,8 @@ type scenario struct {
 	Pre     []blockDecl `json:"pre"` // committed before the race, in this order
 	X       blockDecl   `json:"x"`
 	Readers [][]lookup  `json:"readers"`
+	// Prefill: 2000 unrelated blocks are committed first, so that the cache's link table is full when the race starts
+	Prefill bool `json:"prefill,omitempty"`
 }
 
 func (sc *scenario) decl(h string) *blockDecl {
@@ -220,6 +222,10 @@ func genScenario(rt *rapid.T) *scenario {
 		}
 		sc.Readers = append(sc.Readers, ls)
 	}
+	// small scenarios now and then run on a cache whose link table is already full
+	if len(sc.Readers) == 1 && len(sc.Readers[0]) == 1 && gen.Chance(rt, 25, "prefill") {
+		sc.Prefill = true
+	}
 	return sc
 }
 
@@ -265,6 +271,15 @@ func doLookup(c *statecache.StateCache, l lookup) (string, bool) {
 // runSchedule executes the scenario under the schedule given by choose.
 func runSchedule(sc *scenario, choose func(step, nEnabled int) int) (choices, counts []int, res [][]result, final [][]result, trace []string, between bool) {
 	c := statecache.NewStateCache()
+	if sc.Prefill {
+		for i := 0; i < 2000; i++ {
+			prev := ""
+			if i > 0 {
+				prev = fmt.Sprintf("F%d", i-1)
+			}
+			commitBlock(c, blockDecl{Hash: fmt.Sprintf("F%d", i), Prev: prev}).Commit()
+		}
+	}
 	for _, b := range sc.Pre {
 		commitBlock(c, b).Commit()
 	}
@@ -443,7 +458,12 @@ func TestOwnedSchedules(t *testing.T) {
 		for i := 0; i < 40; i++ {
 			extra = append(extra, rapid.SliceOfN(rapid.IntRange(0, 5), 48, 48).Draw(rt, "sched"))
 		}
-		n, exh, between := exploreScenario(rt, sc, capN, extra)
+		capHere := capN
+		if sc.Prefill {
+			capHere = 400 // every schedule of such a scenario commits 2000 blocks first
+			extra = extra[:5]
+		}
+		n, exh, between := exploreScenario(rt, sc, capHere, extra)
 		cls := []string{fmt.Sprintf("readers:%d", len(sc.Readers))}
 		if exh {
 			cls = append(cls, "scenario-exhaustively-scheduled")
@@ -462,6 +482,9 @@ func TestOwnedSchedules(t *testing.T) {
 				}
 				cls = append(cls, "lookup-via-"+l.Kind)
 			}
+		}
+		if sc.Prefill {
+			cls = append(cls, "link-table-full-before-the-race")
 		}
 		for _, c := range cls {
 			ev.Class(c, 1)
